@@ -49,8 +49,11 @@ def run_bf(inst, text, twopl, pc):
     return tail, obs
 
 
-def judge_one(inst, text, twopl, pc, tally):
-    tail, obs = run_bf(inst, text, twopl, pc)
+def judge_one(inst, text, twopl, pc, tally, given=None):
+    if given is None:
+        tail, obs = run_bf(inst, text, twopl, pc)
+    else:
+        tail, obs = given
     tally.inc("evaluations")
     want = ref.bf_reference(inst, pc, twopl)
     base = {"instance": I.to_json(inst), "file": text, "argv": tail,
@@ -112,6 +115,41 @@ def work(inst, tally):
             judge_one(inst, text, False, pc, tally)    # second-side lists ignored
 
 
+def work_interleaved(item, tally):
+    """Two brute-force Solvers alive at once (both constructed, then solved in
+    either order), differing in -pc and/or -twopl."""
+    from ..pool import Tally
+    inst, (twoA, pcA), (twoB, pcB) = item
+    text = I.render(inst)
+    tails = [lpcheck.tail_for(inst, pc, False, [], twopl=tw, bf=True)
+             for tw, pc in ((twoA, pcA), (twoB, pcB))]
+    for order in ((0, 1), (1, 0)):
+        obs = lprun.run_interleaved([(text, tails[0], ("results",)),
+                                     (text, tails[1], ("results",))], order)
+        tally.inc("interleaved_histories")
+        for k, (tw, pc) in enumerate(((twoA, pcA), (twoB, pcB))):
+            sub = Tally()
+            judge_one(inst, text, tw, pc, sub, given=(tails[k], obs[k]))
+            tally.inc("evaluations")
+            for v in sub.violations:
+                v = dict(v)
+                v["fingerprint"] = "two-solvers-alive:" + v["fingerprint"]
+                v["what"] = "with a second Solver %r constructed before this one was solved " \
+                            "(order %r): %s" % (tails[1 - k], order, v["what"])
+                v["interleaved_with"] = tails[1 - k]
+                v["order"] = list(order)
+                tally.violation(v)
+
+
+def interleaved_items(tier):
+    insts = [x for x in I.family_A(True, profiles=("p1lq1", "leclq1", "lq=uq2", "cap2"))
+             if (x.ns, x.np) in ((2, 2), (1, 2), (2, 1))]
+    if tier == "quick":
+        insts = insts[::7]
+    variants = [(True, False), (True, True), (False, False), (False, True)]
+    return [(x, a, b) for x in insts for a in variants for b in variants if a != b]
+
+
 def instances_for(tier):
     desc = []
 
@@ -146,6 +184,10 @@ def main(tier):
     t0 = time.time()
     insts, desc = instances_for(tier)
     tally = pool.run(work, insts, chunksize=40)
+    it = interleaved_items(tier)
+    tally.merge(pool.run(work_interleaved, it, chunksize=10))
+    desc.append({"family": "two brute-force Solvers alive at once, differing in -pc/-twopl, "
+                           "both solve orders", "instances": len(it)})
     c = tally.c
     if not c.get("maxrank_exceeds_students") or not c.get("only_one_valid_matching") \
             or not c.get("infeasible_instances"):
@@ -163,6 +205,7 @@ def main(tier):
         "infeasible_cases": c.get("infeasible_instances", 0),
         "cases_with_only_one_valid_matching": c.get("only_one_valid_matching", 0),
         "cases_with_max_rank_above_number_of_students": c.get("maxrank_exceeds_students", 0),
+        "interleaved_two_solver_histories": c.get("interleaved_histories", 0),
         "families": desc,
     }
     assumptions = ["reference optimum by enumeration of all assignments (vf/ref.py)",
